@@ -20,6 +20,28 @@ import (
 
 const ModePerm = os.ModePerm
 
+// flags of OpenFile (same values as package os)
+const (
+	O_RDONLY = os.O_RDONLY
+	O_WRONLY = os.O_WRONLY
+	O_RDWR   = os.O_RDWR
+	O_APPEND = os.O_APPEND
+	O_CREATE = os.O_CREATE
+	O_EXCL   = os.O_EXCL
+	O_SYNC   = os.O_SYNC
+	O_TRUNC  = os.O_TRUNC
+)
+
+var (
+	ErrNotExist   = os.ErrNotExist
+	ErrExist      = os.ErrExist
+	ErrPermission = os.ErrPermission
+	ErrClosed     = os.ErrClosed
+)
+
+type PathError = os.PathError
+type LinkError = os.LinkError
+
 type (
 	FileMode = os.FileMode
 	FileInfo = os.FileInfo
@@ -248,7 +270,14 @@ type File struct {
 	st   *FState
 	id   string
 	kind string
+	// the file existed and was opened without O_TRUNC: the shadow is re-read after every write
+	reread bool
 }
+
+func (f *File) Seek(offset int64, whence int) (int64, error) { return f.f.Seek(offset, whence) }
+func (f *File) Chmod(mode os.FileMode) error                 { return f.f.Chmod(mode) }
+func (f *File) ReadAt(p []byte, off int64) (int, error)      { return f.f.ReadAt(p, off) }
+func (f *File) Fd() uintptr                                  { return f.f.Fd() }
 
 func (f *File) Name() string               { return f.f.Name() }
 func (f *File) Read(p []byte) (int, error) { return f.f.Read(p) }
@@ -265,7 +294,16 @@ func (f *File) Write(p []byte) (int, error) {
 	n, err := f.f.Write(p)
 	e.Bytes = append([]byte(nil), p[:n]...)
 	e.Failed = err != nil
-	f.st.Data = append(f.st.Data, p[:n]...)
+	if f.reread {
+		if b, rerr := os.ReadFile(f.f.Name()); rerr == nil {
+			f.st.Data = b
+			if f.st.Durable > len(b) {
+				f.st.Durable = len(b)
+			}
+		}
+	} else {
+		f.st.Data = append(f.st.Data, p[:n]...)
+	}
 	f.w.addLocked(f.id, e)
 	return n, err
 }
@@ -309,6 +347,72 @@ func Create(name string) (*File, error) {
 	w.files[base] = st
 	return &File{f: f, w: w, st: st, id: id, kind: kind}, nil
 }
+
+// OpenFile: with O_CREATE (or O_TRUNC) on a registered directory this is a mutating call recorded
+// like Create ("c"+kind; Failed when e.g. O_EXCL meets an existing file).  A file that already
+// exists and is opened for writing without O_TRUNC keeps its shadow; after every write the shadow
+// is re-read from the real file (position-independent).
+func OpenFile(name string, flag int, perm os.FileMode) (*File, error) {
+	w := worldOf(name)
+	if w == nil {
+		f, err := os.OpenFile(name, flag, perm)
+		if err != nil {
+			return nil, err
+		}
+		return &File{f: f}, nil
+	}
+	if flag&(O_WRONLY|O_RDWR|O_CREATE|O_TRUNC|O_APPEND) == 0 {
+		return Open(name)
+	}
+	base := filepath.Base(name)
+	id, kind := Split(base)
+	w.mu.Lock()
+	defer w.mu.Unlock()
+	e := &Entry{Kind: 'o', Text: "c" + kind, File: kind, Pre: w.snapshotLocked(id)}
+	_, statErr := os.Lstat(name)
+	existed := statErr == nil
+	f, err := os.OpenFile(name, flag, perm)
+	e.Failed = err != nil
+	if !existed || flag&O_TRUNC != 0 || err != nil {
+		// creation / truncation (or a refused call) is one recorded mutating call
+		w.addLocked(id, e)
+	}
+	if err != nil {
+		return nil, err
+	}
+	st, present := w.files[base]
+	if !present || !existed || flag&O_TRUNC != 0 {
+		st = &FState{}
+		w.files[base] = st
+	}
+	return &File{f: f, w: w, st: st, id: id, kind: kind, reread: existed && flag&O_TRUNC == 0}, nil
+}
+
+func WriteFile(name string, data []byte, perm os.FileMode) error {
+	f, err := OpenFile(name, O_WRONLY|O_CREATE|O_TRUNC, perm)
+	if err != nil {
+		return err
+	}
+	_, err = f.Write(data)
+	if err1 := f.Close(); err1 != nil && err == nil {
+		err = err1
+	}
+	return err
+}
+
+func ReadFile(name string) ([]byte, error) {
+	w := worldOf(name)
+	b, err := os.ReadFile(name)
+	if w != nil {
+		id, kind := Split(filepath.Base(name))
+		w.mu.Lock()
+		w.addLocked(id, &Entry{Kind: 'r', Text: "open" + kind, File: kind, Failed: err != nil})
+		w.mu.Unlock()
+	}
+	return b, err
+}
+
+func Lstat(name string) (os.FileInfo, error) { return Stat(name) }
 
 func Open(name string) (*File, error) {
 	w := worldOf(name)
